@@ -40,7 +40,7 @@ match py_str lim v_value with Exn e__ => Exn (e__) | Ok t1__ =>
 Ok ((mem_str (py_lower t1__) v_boolstrs)) end.
 
 Definition gen_is_int_like (lim : N) (v_val : pyval) : res (bool) :=
-let handle1__ := fun e__ : exn => if catches [TypeError; ValueError] e__ then (
+let handle1__ := fun e__ : exn => if catches [TypeError; ValueError; OverflowError] e__ then (
 Ok (false)) else Exn (e__) in
 match py_int_of lim v_val with Exn e__ => (handle1__ e__) | Ok t1__ =>
 match str_of_int lim t1__ with Exn e__ => (handle1__ e__) | Ok t2__ =>
